@@ -106,6 +106,20 @@ func genDbCase(c *Ctx, backend, dom string) string {
 		}
 		ops = append(ops, fmt.Sprintf("P:%d", tb), "S:"+hxs(sb), fmt.Sprintf("G:%s:-", k), fmt.Sprintf("P:%d", ta), "S:"+hxs(sa), fmt.Sprintf("G:%s:-", k))
 	}
+	if dom == "adv" && r.Intn(4) == 0 {
+		// a key crafted to spell another session's file name: (type t, session s, key k) is stored as chr(0x30+t) s.k;
+		// a different session asks for the key "chr(0x30+t) s.k" (and for the persisted-state name "@s.s")
+		ta := []int{32, 16}[r.Intn(2)]
+		sa, sb := "a", "b"
+		if r.Intn(2) == 0 {
+			sa, sb = "b", "a"
+		}
+		k := []string{"b", "c", "pin"}[r.Intn(3)]
+		crafted := string(rune(0x30+ta)) + sa + "." + k
+		ops = append(ops, fmt.Sprintf("P:%d", ta), "S:"+hxs(sa), fmt.Sprintf("W:%s:%s:-", hxs(k), hxs("secret-of-"+sa)),
+			fmt.Sprintf("P:%d", []int{32, 16}[r.Intn(2)]), "S:"+hxs(sb), fmt.Sprintf("G:%s:-", hxs(crafted)),
+			fmt.Sprintf("P:%d", []int{32, 16, 8}[r.Intn(3)]), "S:"+hxs([]string{sb, ""}[r.Intn(2)]), fmt.Sprintf("G:%s:-", hxs(crafted)))
+	}
 	for i := 0; i < n; i++ {
 		k := hxs(keys[r.Intn(len(keys))])
 		cl := langs[r.Intn(len(langs))]
@@ -131,7 +145,8 @@ func genDbCase(c *Ctx, backend, dom string) string {
 			}
 			ops = append(ops, fmt.Sprintf("K:%d:%d", t, r.Intn(2)))
 		default:
-			if strings.HasPrefix(backend, "fs") {
+			if strings.HasPrefix(backend, "fs") || (backend == "pg" && dom == "adv") {
+				// (the Postgres listing is exercised for isolation only: C10 states listing for the filesystem backend)
 				pfx := []string{"", "f", "foo", "b", "a", "x"}[r.Intn(6)]
 				ops = append(ops, fmt.Sprintf("D:%s:%s", hxs(pfx), cl))
 			} else {
@@ -352,7 +367,44 @@ func init() {
 							d.Close()
 							res = "ok:" + strings.Join(got, ",")
 						}
-						if dom == "wf" && pfx != 0 {
+						if backend == "pg" {
+							dbLang = nil // pgDb.Dump resets the handle's language (SetLanguage(nil)) as a side effect
+						}
+						// C11: nothing that belongs to another session or data type is listed
+						if pfx != 0 {
+							me := mkCoord(pfx, sid, nil, "")
+							for _, g := range got {
+								kv := strings.SplitN(g, "=", 2)
+								k, v := string(unhx(kv[0])), unhx(kv[1])
+								own := false
+								for co := range ref {
+									if co.typ == pfx && co.sid == me.sid && (co.key == k || strings.HasPrefix(co.key, k) || strings.HasPrefix(k, co.key)) {
+										own = true // (how an own key is spelled in the listing is C10's concern)
+									}
+								}
+								if own {
+									continue
+								}
+								var foreign *coord
+								cls := "listing-leak"
+								for co, v2 := range ref { // (the same value may have been written to several places)
+									if !bytes.Equal(v2, v) || (co.typ == pfx && co.sid == me.sid) {
+										continue
+									}
+									co := co
+									if storageKey(co) == storageKey(mkCoord(pfx, sid, nil, k)) {
+										cls, foreign = "isolation-key-not-injective", &co
+									} else if foreign == nil {
+										foreign = &co
+									}
+								}
+								if foreign != nil {
+									c.Fail("C11", cls, fmt.Sprintf("%s: Dump(%q) under type %d session %q listed %q=%q, which is the record of type %d session %q key %q", where, keyp, pfx, sid, k, trunc(string(v), 30), foreign.typ, foreign.sid, foreign.key))
+								}
+							}
+							c.Count("dump:" + backend)
+						}
+						if dom == "wf" && pfx != 0 && strings.HasPrefix(backend, "fs") {
 							// expected: every stored key (of this type and session) with the prefix, once, with the value a Get returns
 							expSet := map[string][]byte{}
 							for co, v := range ref {
@@ -413,29 +465,63 @@ func init() {
 // classifyLeak decides which property a wrong Get result breaks and why: a value that belongs to other
 // coordinates is an isolation failure (C11) when session or data type differ, otherwise a map failure (C10).
 func classifyLeak(backend string, ref map[coord][]byte, want, wantDefault coord, got []byte) (string, string) {
+	// every place that holds the value (the same value may have been written to several places): the explanation is
+	// looked for among all of them, in a fixed order of preference, never by map iteration order
+	var foreign, sameScope []coord
 	for co, v := range ref {
 		if !bytes.Equal(v, got) || co == want || co == wantDefault {
 			continue
 		}
 		if co.typ != want.typ || co.sid != want.sid {
-			// whose record is it? same storage key as the one asked for -> the key derivation is not injective
-			if storageKey(co) == storageKey(want) || storageKey(co) == storageKey(wantDefault) {
-				return "isolation-key-not-injective", "C11"
-			}
-			if strings.HasPrefix(backend, "fs") {
-				// the known legacy-name fallback only applies when the reader has no record of its own
-				_, own := ref[want]
-				_, ownDef := ref[wantDefault]
-				if own || ownDef {
-					return "isolation-fs-own-record-shadowed", "C11"
-				}
-				return "isolation-fs-legacy-name", "C11"
-			}
-			return "isolation", "C11"
+			foreign = append(foreign, co)
+		} else {
+			sameScope = append(sameScope, co)
 		}
-		if storageKey(co) == storageKey(want) || storageKey(co) == storageKey(wantDefault) {
+	}
+	sameKey := func(co coord) bool {
+		return storageKey(co) == storageKey(want) || storageKey(co) == storageKey(wantDefault)
+	}
+	// whose record is it? same storage key as the one asked for -> the key derivation is not injective
+	for _, co := range foreign {
+		if sameKey(co) {
+			return "isolation-key-not-injective", "C11"
+		}
+	}
+	for _, co := range sameScope {
+		if sameKey(co) {
 			return "key-not-injective-same-scope", "C10"
 		}
 	}
-	return "wrong-value", "C10"
+	if len(foreign) == 0 {
+		return "wrong-value", "C10"
+	}
+	if strings.HasPrefix(backend, "fs") {
+		// the known legacy-name fallback explains the leak only when the reader's legacy file name (its storage key
+		// without the type byte, plus ".bin" for bytecode) IS the other record's file name (type byte + 0x30, then the rest)
+		legacy := func(w coord) string {
+			n := storageKey(w)[1:]
+			if w.typ == db.DATATYPE_BIN {
+				n += ".bin"
+			}
+			return n
+		}
+		explained := false
+		for _, co := range foreign {
+			other := string([]byte{co.typ + 0x30}) + storageKey(co)[1:]
+			if legacy(want) == other || legacy(wantDefault) == other {
+				explained = true
+			}
+		}
+		if backend == "fs" && !explained {
+			return "isolation-fs-unexplained", "C11"
+		}
+		// ... and only when the reader has no record of its own
+		_, own := ref[want]
+		_, ownDef := ref[wantDefault]
+		if own || ownDef {
+			return "isolation-fs-own-record-shadowed", "C11"
+		}
+		return "isolation-fs-legacy-name", "C11"
+	}
+	return "isolation", "C11"
 }
